@@ -45,6 +45,7 @@ import (
 	netpkg "github.com/fatedier/frp/pkg/util/net"
 	"github.com/fatedier/frp/pkg/util/tcpmux"
 	"github.com/fatedier/frp/pkg/util/util"
+	"github.com/fatedier/frp/pkg/util/verifhook"
 	"github.com/fatedier/frp/pkg/util/version"
 	"github.com/fatedier/frp/pkg/util/vhost"
 	"github.com/fatedier/frp/pkg/util/xlog"
@@ -599,9 +600,11 @@ func (svr *Service) RegisterControl(ctlConn net.Conn, loginMsg *msg.Login, inter
 		return fmt.Errorf("unexpected error when creating new controller")
 	}
 	if oldCtl := svr.ctlManager.Add(loginMsg.RunID, ctl); oldCtl != nil {
+		verifhook.At("svc.regctl.after_add", loginMsg.RunID)
 		oldCtl.WaitClosed()
 	}
 
+	verifhook.At("svc.regctl.after_wait", loginMsg.RunID)
 	ctl.Start()
 
 	// for statistics
@@ -610,7 +613,9 @@ func (svr *Service) RegisterControl(ctlConn net.Conn, loginMsg *msg.Login, inter
 	go func() {
 		// block until control closed
 		ctl.WaitClosed()
+		verifhook.At("svc.regctl.before_del", loginMsg.RunID)
 		svr.ctlManager.Del(loginMsg.RunID, ctl)
+		verifhook.At("svc.regctl.after_del", loginMsg.RunID)
 	}()
 	return nil
 }
